@@ -366,6 +366,8 @@ add("C14",
 JAL = "dateparser/calendars/jalali_parser.py"
 CAL = "dateparser/calendars/__init__.py"
 add("C15",
+    V("hijri-parser-pins-day-first", "C15", [("dateparser/calendars/hijri_parser.py", "    _time_conventions = {", "    def __init__(self, tokens, settings):\n        super().__init__(tokens, settings.replace(DATE_ORDER=\"DMY\"))\n\n    _time_conventions = {")], "fire", "C15.R3",
+      note="seeded change C15-6: '1432-09-05' is read with day and month swapped"),
     V("hijri-range-guard-half-open", "C15", [("dateparser/calendars/hijri_parser.py", "from hijridate import Gregorian, Hijri\n", "from hijridate import Gregorian, Hijri\nfrom hijridate.ummalqura import HIJRI_RANGE\n"),
         ("dateparser/calendars/hijri_parser.py", "        g = Hijri(year=year, month=month, day=day, validate=False).to_gregorian()\n", "        if not HIJRI_RANGE[0] <= (year, month, day) < HIJRI_RANGE[1]:\n            raise ValueError(\"date outside of the supported Hijri range\")\n        g = Hijri(year=year, month=month, day=day, validate=False).to_gregorian()\n")], "fire", "C15.R5",
       note="seeded change C15-3: 30 Dhu al-Hijjah 1500 is rejected"),
